@@ -170,12 +170,23 @@ def judge_explore(res):
         bad.append("threads still alive: " + ",".join(res["left_threads"]))
     if res["left_timers"]:
         bad.append("timers still armed: " + ",".join(res["left_timers"]))
-    if res["left_sockets"]:
+    if res["left_sockets"] and not gather_leak(res):
         bad.append(f"{res['left_sockets']} sockets still open")
     if res.get("call_exc") not in (None, "InvalidStateError"):
         bad.append(f"the interrupted call raised {res['call_exc']}")
     bad.extend(res["notes"])
     return "; ".join(bad[:4]) if bad else None
+
+
+def gather_leak(res):
+    """KNOWN on the pinned tree (notes/C19.md, fixes/C19-gather-after-close.patch proposes the repair): close() during
+    setLocalDescription()'s candidate gathering - aioice goes on gathering after Connection.close() and the sockets it opens
+    then are never closed.  Reported in the labels ("+gather-leak"), not as a verdict, unless C19_STRICT_SOCKETS=1."""
+    if os.environ.get("C19_STRICT_SOCKETS") == "1":
+        return False
+    call = res.get("case_call") or [None, "", 0]
+    fired = res.get("fired") or [0, True]
+    return bool(res.get("left_sockets")) and call[1] == "setLocal" and not fired[1]
 
 
 def judge_any(case, res):
@@ -190,7 +201,9 @@ def _run(case):
         else:
             from harness import close_world
             res = close_world.run_case(case)
-    except Exception as exc:  # noqa: BLE001
+    except (KeyboardInterrupt, SystemExit):
+        raise
+    except BaseException as exc:  # noqa: BLE001 - (a CancelledError escaping the run must not kill the pool worker)
         return {"harness_exc": type(exc).__name__ + ": " + str(exc)[:300]}
     return res
 
@@ -201,6 +214,8 @@ def _pool_run(case):
         res = _run(case)
         return res
     why = judge_any(case, res)
+    if why and "raised" in why.split(";")[0]:
+        return res      # an exception escaping close() is no timing noise: no need to see it twice
     if why:
         # re-run (twice; explorer cases once): only a failure that shows up again is reported (timing noise of a loaded machine)
         for _ in range(1 if case.get("x") else 2):
@@ -472,7 +487,8 @@ class Explore(Shutdown):
             return "void:" + r["void"].split(" raised")[0][:30]
         fired = r.get("fired") or [0, True]
         when = "end" if fired[1] else "k%d" % (fired[0] - 1)
-        return f"{case['policy']}:{case['call'][1]}@{case['call'][0]}:{when}:{case['closer']}"
+        return (f"{case['policy']}:{case['call'][1]}@{case['call'][0]}:{when}:{case['closer']}"
+                + ("+gather-leak" if gather_leak(r) else ""))
 
     def nontrivial(self, case, impl_out):
         r = self._get(case)
@@ -495,7 +511,8 @@ class Explore(Shutdown):
 
 
 def components(tier):
-    return [Shutdown(), Explore()]
+    # the explorer first: its failing inputs are the minimal (configuration, call, k) ones and cheap to shrink
+    return [Explore(), Shutdown()]
 
 
 def classify_finding(finding, comp_name, case, what):
